@@ -65,6 +65,7 @@ type Gen struct {
 	frameN       int
 	cur          *Frame
 	verBound     map[string]string
+	tblOK        map[string]bool
 	nextBound    string
 	regions     []knownFinding
 	regionTerms map[string]string
@@ -343,7 +344,7 @@ func (g *Gen) cellLoc(ref string, elem types.Type) *Loc {
 
 func (g *Gen) elemLoc(sl string, idx string, elem types.Type) *Loc {
 	comp, es := g.elemComp(elem)
-	return &Loc{kind: "elem", ref: fmt.Sprintf("(s_ref %s)", sl), idx: fmt.Sprintf("(+ (s_off %s) %s)", sl, idx), comp: comp, rsort: es, rtype: elem, typ: elem}
+	return &Loc{kind: "elem", ref: fmt.Sprintf("(s_ref %s)", sl), idx: fmt.Sprintf("(eidx (s_off %s) %s)", sl, idx), comp: comp, rsort: es, rtype: elem, typ: elem}
 }
 
 // loadStruct reads a whole struct value through a ref (pointer to struct in the heap).
